@@ -379,6 +379,28 @@ fn mutations(doc: &Value) -> Vec<(Vec<String>, String, String)> {
             }
             out.push((p.clone(), "duplicate".to_string(), text.unwrap_or_else(|| d.to_string())));
         }
+        // an array header `dim` re-factorised over the same number of elements (the element count still matches `data`)
+        if p.last().map(|l| l == "dim").unwrap_or(false) {
+            let cur = get_mut(&mut doc.clone(), p).cloned();
+            let len: Option<u64> = cur.as_ref().and_then(|c| c.as_array()).map(|a| a.iter().filter_map(|x| x.as_u64()).product());
+            if let (Some(cur), Some(len)) = (cur, len) {
+                let rank = cur.as_array().map(|a| a.len()).unwrap_or(0);
+                let mut alts: Vec<Value> = vec![];
+                if rank == 2 {
+                    for r in 1..=len.max(1) { if len % r == 0 { alts.push(json!([r, len / r])); } }
+                    alts.push(json!([len]));
+                } else if rank == 1 {
+                    alts.push(json!([1, len]));
+                    alts.push(json!([len, 1]));
+                }
+                for a in alts {
+                    if a == cur { continue; }
+                    let mut d = doc.clone();
+                    if let Some(x) = get_mut(&mut d, p) { *x = a.clone(); }
+                    out.push((p.clone(), format!("reshape:{}", a), d.to_string()));
+                }
+            }
+        }
         // retype / alter
         for (name, val) in repl.iter() {
             let mut d = doc.clone();
@@ -576,6 +598,22 @@ pub fn ctors(out: &str) {
                     }
                 }
             }
+        }
+    }
+    // csolve on a spline without coefficients (order = number of knots): the only admissible data are empty
+    for k in [2usize, 3] {
+        let t: Vec<f64> = (0..k).map(|i| if i < k / 2 { 0.0 } else { 1.0 }).collect();
+        for (ntau, ny, lsq) in [(0usize, 0usize, false), (0, 0, true), (0, 1, false), (1, 1, false)] {
+            let tau = vec![0.5; ntau];
+            let y = vec![1.0; ny];
+            let res = guard(|| { let mut sp: PPSpline<f64> = PPSpline::new(k, t.clone(), None); let r_ = sp.csolve(&tau, &y, 0, 0, lsq).map_err(|e| e.to_string()); (sp, r_) });
+            let (oc, shape) = match &res {
+                Outcome::Ok((sp, Ok(()))) => ("ok", shape_spline(sp, |_| json!({"t":"F"}))),
+                Outcome::Ok((_, Err(_))) => ("err", json!({"t":"none"})),
+                Outcome::Panic(_) => ("panic", json!({"t":"none"})),
+            };
+            o.emit(&json!({"key": format!("ctor/csolve/k{}/n0/tau{}/y{}/{}", k, ntau, ny, if lsq {"lsq"} else {"sq"}), "op":"ctor", "fn":"csolve",
+                           "k": k, "n": 0, "ntau": ntau, "ny": ny, "lsq": lsq, "singular": false, "o": oc, "shape": shape}));
         }
     }
     // FXRates with degenerate inputs
